@@ -96,6 +96,18 @@ CHECKS = {
         note="The refinement pointer-level model = specification is NOT a theorem; it is established by exhaustive enumeration to length 6 (7 in the thorough tier) and random sequences to length 200. "
              "Hierarchies built by the three loaders are covered through the C09/C10/C11/C14 file-level dumps. HashMap / Vec are trusted.",
     ),
+    "C09": dict(
+        technique="Lean 4 proof (identifier codes ~ signals, bit-range packing, keyword tables, flattening rule) + differential run of generated headers against the byte-level Lean model of the header reader and an abstract declaration interpreter",
+        text="Lean theorems C09_share_iff (variables share a signal exactly when they share an identifier code: id_to_int is injective and the hashed map numbers distinct codes distinctly, for every declaration list), "
+             "C09_index_roundtrip / C09_index_single (VarIndex packing returns the declared bounds, negative ones included, whenever msb-lsb fits an i32), C09_width_zero, C09_keywords_unique (generated tables), "
+             "C09_scope_flatten, C09_date_verbatim. The composition text -> tree is differential: headers are generated twice, as an abstract declaration list and as text (random white space incl. tabs / CRLF, "
+             "glued / split timescale, 0..3 bracket groups, negative and spaced ranges, widths 0..4096, dense / sparse / long / wrapping id codes, GTKWave-nvc attributes 02/03/04, re-opened and empty scopes, both option values); "
+             "the real read_header, the byte-level Lean model (read_command, find_tokens, parse_name, extract_suffix_index, attribute stack, id-map switch, pointer-level builder) and the declaration list interpreted on the "
+             "abstract hierarchy of C08 must give the same tree, meta data and header length. A malformed stream checks err / panic agreement.",
+        design_ref="DESIGN.md section 5 / C09",
+        note="Name / range parsing of arbitrary text is not proved correct in general (closed examples + differential only). The generator decides what a text 'declares': a trailing [..] group is the bit range, "
+             "white space inside a name is spaces only. Fix F25 (find_tokens split on ' ' only) is a prerequisite. Trusted: str::parse, HashMap.",
+    ),
     "C13": dict(
         technique="Lean 4 proof (slice/compress = packing of the symbols fetched at the requested bit positions, by induction; entry round trip) + exhaustive sub-range differential in release and debug-assertion builds",
         text="Lean theorems C13_slice_symbols (for every kind, parent width and [msb:lsb]: the produced bytes render as the parent's symbols at those bit positions), C13_minimal_repack, C13_entry. "
